@@ -141,7 +141,7 @@ GC = "tealer/teal/context/block_transaction_context.py::BlockTransactionContext.
 c = contract(GC, params={"self": CTX, "txn_index": T.Int}, returns=CTX, tags=["C01", "C03", "C10"],
              raises=[("TealerException", lambda self, txn_index: Or(gtxn_none(self), txn_index >= 16))])
 requires(c, "position", lambda txn_index: txn_index >= 0)
-requires(c, "wf", lambda self: wf_ctx(self))
+requires(c, "wf", lambda self: Or(gtxn_none(self), Eq(Len(gtxn_list(self)), 16)))
 ensures(c, "lookup", lambda self, txn_index, result: And(Not(gtxn_none(self)), txn_index < 16,
                                                          Eq(result, gtxn_list(self)[txn_index])))
 
